@@ -67,7 +67,7 @@ PROPS = {
     },
     "C13": {
         "level": "proof",
-        "units": ["range", "sproof", "lemmas_range_ledger", "lemmas_range_complete"],
+        "units": ["range", "sproof", "lemmas_range_ledger", "lemmas_range_complete", "lemmas_range_soundness", "cor_merchant"],
         "kani": ["range_digits_exact"],
         "assumptions": [
             PER_INST,
@@ -98,7 +98,7 @@ PROPS = {
     },
     "C02": {
         "level": "proof",
-        "units": ["za_merchant", "sproof", "cproof", "range", "challenge", "transcripts", "cor_merchant", "lemmas_schnorr"],
+        "units": ["za_merchant", "sproof", "cproof", "range", "challenge", "transcripts", "cor_merchant", "lemmas_schnorr", "lemmas_range_soundness"],
         "scans": ["verified_blinded_state_sites", "verified_blinded_close_state_sites", "verified_blinded_message_sites"],
         "assumptions": [
             "as C01, plus unforgeability of PS signatures (pay token, digit signatures)",
